@@ -7,7 +7,7 @@
 //! Verdict from return values only: `compact()` returning `Ok(_)` although a savepoint existed
 //! from before it could acquire the write lock until after it returned is a violation. Timing is
 //! a scheduling hint only (how long the holder waits before creating the savepoint); if
-//! `compact()` has not returned 3 s after the holder's transaction ended, the savepoint is
+//! `compact()` has not returned 20 s after the holder's transaction ended, the savepoint is
 //! released so that a compaction stuck behind it can finish and report what it did.
 
 use crate::backend::RecBackend;
@@ -55,12 +55,16 @@ pub fn run(sc: Sc) -> Result<bool, Failure> {
     }
     let w = db.begin_write().map_err(|e| fail("harness", format!("{e:?}")))?;
     let (tx, rx) = channel();
+    let (started_tx, started_rx) = channel();
     let t = std::thread::spawn(move || {
         let mut db = db;
+        let _ = started_tx.send(());
         let r = catch(|| db.compact());
         let _ = tx.send(());
         (db, r)
     });
+    // the compacting thread is running (it may or may not have reached begin_write yet)
+    let _ = started_rx.recv_timeout(Duration::from_secs(20));
     std::thread::sleep(Duration::from_millis(sc.wait_ms));
     // the holder creates its savepoint, then ends the transaction
     let mut eph = None;
@@ -75,7 +79,7 @@ pub fn run(sc: Sc) -> Result<bool, Failure> {
     } else {
         w.abort().map_err(|e| fail("harness", format!("abort: {e:?}")))?;
     }
-    let returned_in_time = rx.recv_timeout(Duration::from_secs(3)).is_ok();
+    let returned_in_time = rx.recv_timeout(Duration::from_secs(20)).is_ok();
     // release the savepoint only now (after compact() returned, or to unblock a stuck one)
     drop(eph);
     let (mut db, r) = t.join().map_err(|_| fail("harness", "compact thread died".into()))?;
@@ -90,7 +94,7 @@ pub fn run(sc: Sc) -> Result<bool, Failure> {
         Ok(b) => {
             return Err(fail(
                 "compact-ran-with-savepoint",
-                format!("compact() returned Ok({b}) although a savepoint existed from before it could take the write lock until {} (it ran while a savepoint existed)", if returned_in_time { "after it returned" } else { "3 s after the holder's transaction ended, when the savepoint was released to let it finish" }),
+                format!("compact() returned Ok({b}) although a savepoint existed from before it could take the write lock until {} (it ran while a savepoint existed)", if returned_in_time { "after it returned" } else { "20 s after the holder's transaction ended, when the savepoint was released to let it finish" }),
             ));
         }
     }
